@@ -189,6 +189,13 @@ def s5(ctx, rep):
     ok = len(idx) == 1 and isinstance(idx[0].ast.value, ast.Subscript) and U(idx[0].ast.value.value) == "metric_mode" and \
         isinstance(idx[0].ast.value.slice, ast.Name) and len(rt) == 1 and U(rt[0].elts[1]) == "metric_mode"
     mix = U(idx[0].ast.value.slice) if ok else "?"
+    if ok:
+        from .c01 import _dom_atoms
+        dom_ = _dom_atoms(cm, idx[0].id)
+        extra_ = [a for a in dom_ if not (a[0] == "isinstance" and a[1] == "metric_mode" and a[2] == "list" and a[3] is True)]
+        rep.put(not extra_, "S5", "guarded_by", "metric_name_mode: a list of modes is reduced to the queried metric's mode whenever it is a list", mm,
+                idx[0].ast, "", f"the reduction is additionally guarded by {sorted(map(str, extra_))}: a one-element list of modes is returned as a list, "
+                "`mode == 'min'` is then false everywhere and the maximiser is reported as the best configuration")
     mi = [d for d in local_defs(mm, mix) if not isinstance(d, tuple)]
     ok = ok and len(mi) == 1 and isinstance(mi[0], ast.IfExp)
     if ok:
